@@ -8,6 +8,8 @@
 #include "vrt_st.h"
 #include "ref_format.h"
 #include "gen_text.h"
+#include "gen_scale.h"
+#include "ambient.h"
 #include <complex>
 #include <filesystem>
 #include <cerrno>
@@ -220,7 +222,8 @@ static void format_case(const S &fmt, int shape, const Values &v, bool bounded =
     vrt::cur_printf("shape=%d fmt=%s\n", shape, show(fmt).c_str());
     Result r[4];
     for (int m = 0; m < 4; ++m) r[m] = run_format(shape, v, f.data(), m == 3 ? -1 : m);
-    std::string ctx = sfmt("shape=%d fmt=%s (text: %s)", shape, show(fmt).c_str(), vrt::json_escape(fmt).substr(0, 160).c_str());
+    std::string ctx = sfmt("shape=%d fmt=%s (text: %s)", shape, show(fmt).c_str(), vrt::json_escape(fmt.substr(0, 160)).substr(0, 160).c_str());
+    if (fmt.size() > 2000) ctx += " [" + scale::brief(fmt) + "]";
     for (int m = 0; m < 4; ++m) {
         if (r[m].kind == OTHER)
             vrt::violation(sfmt("C10:foreign-outcome:%s", r[m].what.substr(0, 80).c_str()), ctx);
@@ -259,8 +262,26 @@ static int random_shape(Rng &r)
     return r.chance(1, 6) ? EXTRA_BASE + static_cast<int>(r.below(NEXTRA)) : static_cast<int>(r.below(NSHAPES));
 }
 
+// format_case on a scale-phase input; the outcome classes it produced are counted again under "scale.outcome."
+static void scale_format_case(const S &fmt, int shape, const Values &v)
+{
+    static const char *const names[] = {"output", "ST::bad_format", "std::out_of_range", "invalid_utf8_result", "contract-assertion"};
+    uint64_t before[5];
+    for (int k = 0; k < 5; ++k) before[k] = vrt::counter(S("outcome.") + names[k]);
+    const uint64_t skipped = vrt::counter("skipped.resource_heavy_width");
+    format_case(fmt, shape, v);
+    if (vrt::counter("skipped.resource_heavy_width") != skipped) vrt::count("scale.skipped_as_resource_heavy");
+    for (int k = 0; k < 5; ++k) {
+        const uint64_t d = vrt::counter(S("outcome.") + names[k]) - before[k];
+        if (d) vrt::count(S("scale.outcome.") + names[k], d);
+    }
+    vrt::count("scale.format_strings");
+    if (fmt.size() >= 65536) vrt::count("scale.format_strings>=64KiB");
+}
+
 static void body()
 {
+    ambient::enable(3);
     vrt::require("outcome.output", 10000);
     vrt::require("outcome.ST::bad_format", 10000);
     vrt::require("outcome.std::out_of_range", 1000);
@@ -367,6 +388,95 @@ static void body()
                 vrt::count("null_format.calls");
             }
     });
+    // ---- scale (rt/ref_format.h, last section): the same monitor (format_case: four validation selectors and five sinks, exact-size
+    // format strings) on format strings, arguments, renderings and pad runs of several KiB to a MiB
+    {
+        g_sinks_sampled = false;
+        const auto describe_only = [](const char *, auto &&...) {};
+        vrt::note("scale phases: (1) literal runs of up to 320 KiB in which {{ / }} / a field / a stray } / a 2-, 3-, 4-byte character / the end of the string / an unterminated or "
+                  "malformed field begins q*B-k bytes (B over scale::blocks(), q in 1..8, k in 0..3) behind the start of the run or of the string, chained, each chain also cut "
+                  "right behind every such token; (2) 255..70000 fields in one format string, argument lists of 9, 17 and 20, cut in the middle; (3) text arguments of "
+                  "1 KB..1 MiB with characters / U+0000 / the precision cut / the end on such multiples, pad runs of up to 200000 behind texts and numbers");
+        // malformed / unterminated things that begin at the grid offset and end the string
+        static const char *const BAD[] = {"{", "{_", "{.", "{&", "{z}", "{>12", "{_*300", "{{{", "{&1.", "{\xC3\xA9}"};
+        const int NBAD = static_cast<int>(sizeof(BAD) / sizeof(BAD[0]));
+        static const size_t CAP = 320 * 1024;
+        vrt::require("scale.literal.cases", 300);
+        vrt::require("scale.literal.token_straddles_a_multiple", 300);
+        vrt::require("scale.literal.token_starts_on_a_multiple", 100);
+        vrt::require("scale.literal.format_string>=64KiB", 100);
+        vrt::require("scale.literal.cut_behind_a_token", 500);
+        vrt::require("scale.literal.malformed_token_at_grid_offset", 300);
+        vrt::require("scale.format_strings>=64KiB", 300);
+        vrt::require("scale.outcome.output", 1000);
+        vrt::require("scale.outcome.ST::bad_format", 300);
+        vrt::require("scale.outcome.std::out_of_range", 10);
+        vrt::require("scale.outcome.invalid_utf8_result", 5);
+        for (int t = 0; t < N_TOK; ++t) vrt::require(S("scale.literal.token.") + tok_name(t), 30);
+        vrt::phase("scale_literals", vrt::tier_count(21 * (N_TOK + NBAD) * 4, 21 * (N_TOK + NBAD) * 120), [&](uint64_t i, Rng &r) {
+            const LiteralPlan p = literal_plan(i, N_TOK + NBAD);
+            Values v;
+            random_values(r, v);
+            ExactViews exact_views(v);
+            static const int shapes[] = {1, 2, 3, 5, 6, 7, 9, 10, 11, 12, 47, 200, 201, 202, EXTRA_BASE + 5, EXTRA_BASE + 6};
+            const int shape = r.pick(shapes);
+            std::vector<Arg> args;
+            call_shape(shape, v, "", &args, describe_only);
+            const size_t nargs = shape >= EXTRA_BASE ? (shape == EXTRA_BASE + 5 ? 4 : 5) : args.size();
+            ScaleFmt sf;
+            const bool malformed = p.kind >= N_TOK;
+            if (!scale_literal_chain(r, p, malformed ? static_cast<int>(r.below(3)) : p.kind, nargs, CAP, true, sf)) { vrt::count("scale.literal.skipped_too_large"); return; }
+            const S text = sf.text();
+            if (malformed) {
+                const char *bad = BAD[p.kind - N_TOK];
+                for (size_t at : sf.starts) {
+                    scale_format_case(text.substr(0, at) + bad, shape, v);
+                    vrt::count("scale.literal.malformed_token_at_grid_offset");
+                }
+            } else {
+                for (size_t j = 0; j + 1 < sf.ends.size(); ++j) {
+                    scale_format_case(text.substr(0, sf.ends[j]) + (r.chance(1, 2) ? "" : r.chance(1, 2) ? "z" : "tail \xE2\x82\xAC"), shape, v);
+                    vrt::count("scale.literal.cut_behind_a_token");
+                }
+                scale_format_case(text, shape, v);
+            }
+            if (vrt::want_sample("scale") && sf.len > 20000)
+                vrt::sample("scale", sfmt("format string of %zu bytes, %zu fields, %zu tokens (%s) at offsets %zu.. (block %zu, first multiple %zu, %zu bytes in front of it), and its prefixes behind each token", sf.len, sf.fields.size(),
+                                          sf.starts.size(), malformed ? BAD[p.kind - N_TOK] : tok_name(p.kind), sf.starts.empty() ? 0 : sf.starts[0], p.B, p.q0, p.k0));
+        });
+        vrt::require("scale.fields.cases", 20);
+        vrt::require("scale.fields.more_than_255_fields", 15);
+        vrt::require("scale.fields.more_than_65535_fields", 4);
+        vrt::require("scale.fields.more_than_16_arguments", 4);
+        vrt::phase("scale_fields", vrt::tier_count(48, 1200), [&](uint64_t i, Rng &r) {
+            Values v;
+            random_values(r, v);
+            ExactViews exact_views(v);
+            static const int shapes[] = {200, 201, 202, 5, 47, 1, 10, 12, 200, 202};
+            const int shape = r.pick(shapes);
+            std::vector<Arg> args;
+            call_shape(shape, v, "", &args, describe_only);
+            ScaleFmt sf;
+            scale_many_fields(i, r, args.size(), r.chance(1, 3), sf);
+            const S text = sf.text();
+            scale_format_case(text, shape, v);
+            // ... and cut somewhere in the second half (mostly inside a field: unterminated)
+            scale_format_case(text.substr(0, text.size() / 2 + r.below(text.size() / 2 + 1)), shape, v);
+        });
+        vrt::require("scale.args.cases", 150);
+        vrt::require("scale.args.precision_cut", 20);
+        vrt::require("scale.args.pad_run>=65536", 10);
+        vrt::require("scale.args.text_argument>=64KiB", 50);
+        vrt::require("scale.args.text_argument>=1MB", 3);
+        vrt::phase("scale_args", vrt::tier_count(336, 10080), [&](uint64_t i, Rng &r) {
+            Values v;
+            ArgCase c;
+            scale_arg_case(i, r, v, c, (1u << 20) + 4096, 200000);
+            ExactViews exact_views(v);
+            scale_format_case(c.f.text(), c.shape, v);
+            if (vrt::want_sample("scale-arguments")) vrt::sample("scale-arguments", sfmt("shape %d, format \"%s\": %s", c.shape, vrt::json_escape(c.f.text().substr(0, 80)).c_str(), c.what.c_str()));
+        });
+    }
     vrt::alloc::check_pairing("fmtparse");
 }
 
